@@ -8,8 +8,8 @@ Fixpoint assoc {A} (k : string) (l : list (string * A)) : option A :=
   match l with [] => None | (k', v) :: t => if String.eqb k k' then Some v else assoc k t end.
 Definition num (r : R) := VNum (Fin r).
 Definition dict (l : list (string * val)) := VDict (map (fun kv => (VStr (fst kv), snd kv)) l).
-Definition vec (l : list R) := VList (map num l).
-Definition mat (l : list (list R)) := VList (map vec l).
+Definition vec (l : list R) := VArr (map num l).
+Definition mat (l : list (list R)) := VArr (map (fun r => VList (map num r)) l).
 
 Definition mtab : list (string * list (string * callee)) :=
   [("DdtGaussianLikelihood", [("log_likelihood", CFun src_DdtGaussianLikelihood_log_likelihood); ("ddt_measurement", CFun src_DdtGaussianLikelihood_ddt_measurement)]);
